@@ -80,6 +80,9 @@ C04.render: the (min?, max?, extensible) -> annotation table of format_range_ann
 C04.vis: parts that are not PER-visible (X.691 10.3.21; a PATTERN constraint stands for one): fold_constraint_set is evaluated with the invisible part on either side of each operator (union => not visible, intersection => the visible part, EXCEPT => base), and `impl PerVisible for ElementOrSetOperation` must report a set operation visible as soon as one side is. Not decided: operator precedence/associativity of the constraint parser, reference resolution, expressions with three or more operands, character-string folding.".into();
     ctx.assumptions = vec!["X.691 §10.3: PER-visible constraint of a union is the hull, EXCEPT is ignored".into(), "rasn's value(\"lo..=hi\") / size(..) annotations take inclusive ranges".into()];
     ctx.rule("abstract evaluation over all order types of two operands on a 6-point end-point alphabet; exhaustive option/boolean tables");
+    // a size bound is attached to a string component only if the component formatter takes the type for a known-multiplier
+    // string type: the two lists of X.691 30.1 types (the analysis lives with C15.km)
+    borrow(ctx, "C15", "C15.km", "C04.km", &mut |sub| crate::rules::c15::run(m, sub));
     let consts = const_resolver(m);
     let inl = inline_all(m, &["ASN1Value"]);
     for k in ["fold_constraint_set", "intersect_single_and_range", "union_single_and_range", ".min_max", ".max", ".min"] {
